@@ -13,6 +13,26 @@ The theorems are about `FeatModel.Ser.serialize / deserialize / convert`, the fu
 
 The checkpoint theorems are about `cpSave / cpLoad / cpIndex / cpRestore` (the functions behind the driver's
 `cp` / `cpx` ops).  Text modes: see the end of this file.
+
+## What is modelled as unbounded, and what ties it to the C++
+
+* `Index` / `std::uint64_t` / `std::size_t` / `long` (array sizes, offsets `global_i`, header words, checkpoint lengths,
+  `std::streamsize` casts) are `Nat`; the theorems carry the explicit hypotheses "`< 256 ^ 8`" where a value is
+  stored in a 64-bit word, but no wrap-around of the *offset arithmetic* is modelled.
+* `IT_`/`IT2_` (`unsigned int` / `unsigned long`) index values are `Nat` with the explicit bound `< 256 ^ sIT`;
+  narrowing `IT2_(t)` is `cvIndex` (mod `256 ^ w`) and only claimed to round-trip under `Representable`.
+* `DT_` values are opaque bit patterns (`Nat < 256 ^ sDT`) in the binary theorems and exact rationals in the text
+  theorems; `float`/`double` rounding of `atof` is outside the theorems (`Exact7` values are dyadic/decimal).
+* `std::string` / `getline` lines are unbounded `List Char`; `std::map` is a sorted association list;
+  `MemoryPool` allocation rounding (multiples of 4 elements) and `SparseVector`'s allocation step
+  `min(size, 1000)` do not appear in the list model at all.
+* zlib/zfp compressed code paths are compiled out of this build and not modelled.
+
+None of these C++ size limits is visible to the theorems.  The correspondence stream `boundary-sizes` of
+`checks/props/c05.py` is what ties them: sizes 3…33 around multiples of 4/8/16, 127/128/129, 255/256/257,
+1000/1001 (and 32767…65537 in the thorough tier), index values up to `2^32 − 1`, blobs around 64 KiB, three-digit
+decimal exponents, with the non-zero content in the last rows / highest indices, compared byte for byte with the
+model (up to size 4096; the list model is quadratic beyond) and judged by the independent oracle.
 -/
 open FeatModel.Ser FeatModel.TextIO
 
